@@ -46,6 +46,9 @@ def rules(chk, db):
 def run(chk, db):
     facts.gate(chk, db, ['nop/base/', 'nop/utility/bounded_writer.h'])
     rules(chk, db)
+    from .. import witness
+    witness.run(chk, 'c03_bytes.cpp', 'WB', 'compile-time witnesses: the library\'s constexpr serialisation of structures, integers at class boundaries, '
+                'integral / non-integral arrays, pairs, tuples, optionals and tables equals the hand-written documented bytes', minimum=25)
     chk.explanation = (
         'Integer layer: each Prefix function is shown to be piecewise constant (its parameter occurs only in comparisons with constants) '
         'and is evaluated with exact C conversion semantics on every cell of the induced partition, which decides minimality for all values; '
